@@ -193,7 +193,7 @@ int main(int argc, char **argv)
         }
         if (table_parse(&W, table)) mcx_fatal("cannot parse table '%s'", table);
         if (events) parse_events(events);
-        W.buf_size = W.shared ? 2 * W.cap : W.cap;
+        W.buf_size = W.shared == 2 ? 2 * W.cap + 1 : W.shared ? 2 * W.cap : W.cap;   /* shared 2: odd-sized shared buffer */
         if (W.ubuf_size < 0) W.ubuf_size = W.cap;
         /* record the full command line so that a replay file is self-contained */
         size_t cl = 0;
